@@ -174,7 +174,8 @@ def emit(result, tier, seed, wall, repo_root, repo_stats, level='other', evidenc
             samples=samples[:30],
             exhaustive=True,
             checker_cmd='python3-vt sa/check.py %s --tier %s' % (result.prop, tier),
-            trusted_base=['CPython ast parser', 'sa/cfg.py CFG builder (exceptional edges, finally duplication, '
+            trusted_base=['CPython ast parser', 'source normalisation sa/normalise.py (exact inlining of private helpers absent from the pinned tree, '
+                          'f-string / lambda canonical forms)', 'sa/cfg.py CFG builder (exceptional edges, finally duplication, '
                           'contextmanager inlining)', 'raise policy and library effect table (sa/resolve.py)',
                           'abstract semantics sa/flow.py'],
             clauses=[c.to_json() for c in result.clauses],
